@@ -32,7 +32,7 @@ REAL_VS_STUB = {"real": ["solvers.greedy / largest_coalition / random", "run.gre
 ASSUMPTIONS = ["rewards used by the oracle are recomputed on fresh objects (bit-identical to the environment's by C08)",
                "randomised expected-greedy may pick any coalition within its documented 1e-6 of the minimum",
                "expected-greedy is called with a step limit not exceeding the number of explorable coalitions"]
-PROBES = ["state_with_ties", "state_best_differs_from_worst", "greedy_checked", "greedy_worst_checked",
+PROBES = ["initial_knowledge_beyond_minimal", "state_with_ties", "state_best_differs_from_worst", "greedy_checked", "greedy_worst_checked",
           "largest_checked", "random_checked", "expected_greedy", "expected_greedy_randomised",
           "state_after_unstep", "several_sampled_games"]
 TIERS = {
@@ -73,12 +73,19 @@ def run_state_rule(sim: Sim) -> None:
             source = em.RegistrySource(sim.pick(KEYS[cls], "key"), n, sim.choose(2 ** 32, "seed"))
         else:
             source = em.ListSource([games.draw_game(sim, n, cls)[0] for _ in range(1 + sim.choose(3, "n-games"))], n)
-        env = em.make_env(n, comp_name, source, gap, budget)
+        all_expl = games.explorable_ids(n)
+        extras = sim.subset(all_expl, "initially-known-extras", 1, 8) if sim.flip(1, 3, "extras?") else []
+        if len(extras) >= len(all_expl) - 1:
+            extras = []
+        env = em.make_env(n, comp_name, source, gap, budget, initial_extra=extras)
         inst = ModelInstance(number_of_players=n, seed=sim.choose(1000, "solver-seed"), unique_name="sim")
         solvers = {name: SOLVERS[name](inst) for name in sorted(SOLVERS)}
     ctx = {"n": n, "class": cls, "computer": comp_name, "gap": gap_name, "part": "state_rule"}
     sim.config.update(ctx)
-    explorable = games.explorable_ids(n)
+    explorable = [e for e in games.explorable_ids(n) if e not in extras]
+    if extras:
+        sim.probe("initial_knowledge_beyond_minimal")
+    ctx["initially_known_extras"] = extras
     revealed: list[int] = []
     hidden = source.current()
     checks_left = 3 + sim.choose(8 if n <= 4 else 3, "checks")
@@ -121,16 +128,16 @@ def run_state_rule(sim: Sim) -> None:
             checks_left -= 1
             if last == "unstep":
                 sim.probe("state_after_unstep")
-            check_state(sim, env, solvers, n, comp_name, gap, hidden, revealed, valid, explorable, ctx)
+            check_state(sim, env, solvers, n, comp_name, gap, hidden, revealed, valid, explorable, ctx, extras)
         last = kind
     valid = [a for a in range(len(explorable)) if a not in revealed]
     if valid:
-        check_state(sim, env, solvers, n, comp_name, gap, hidden, revealed, valid, explorable, ctx)
+        check_state(sim, env, solvers, n, comp_name, gap, hidden, revealed, valid, explorable, ctx, extras)
 
 
-def check_state(sim: Sim, env, solvers, n, comp_name, gap, hidden, revealed, valid, explorable, ctx) -> None:
+def check_state(sim: Sim, env, solvers, n, comp_name, gap, hidden, revealed, valid, explorable, ctx, extras=()) -> None:
     comp = games.computer(comp_name)
-    K = games.minimal_ids(n) + [explorable[a] for a in revealed]
+    K = games.minimal_ids(n) + list(extras) + [explorable[a] for a in revealed]
     rewards = {}
     for a in valid:
         f = games.fresh(n, comp, K + [explorable[a]], hidden)
@@ -185,11 +192,17 @@ def run_expected_greedy(sim: Sim) -> None:
     comp_name = sim.pick(games.computers_for(cls, n), "computer")
     gap_name = sim.pick(sorted(GAP_FUNCTIONS), "gap")
     gap = GAP_FUNCTIONS[gap_name]
-    explorable = games.explorable_ids(n)
+    all_expl = games.explorable_ids(n)
+    extras = sim.subset(all_expl, "initially-known-extras", 1, 6) if sim.flip(1, 3, "extras?") else []
+    if len(extras) >= len(all_expl) - 1:
+        extras = []
+    if extras:
+        sim.probe("initial_knowledge_beyond_minimal")
+    explorable = [e for e in all_expl if e not in extras]
     reps = 1 + sim.choose(4, "repetitions")
     if reps > 1:
         sim.probe("several_sampled_games")
-    max_steps = 1 + sim.choose(len(explorable) if n == 3 else 3, "max-steps")
+    max_steps = 1 + sim.choose(min(len(explorable), 3), "max-steps")
     randomised = sim.flip(1, 3, "randomised")
     if randomised:
         sim.probe("expected_greedy_randomised")
@@ -199,7 +212,7 @@ def run_expected_greedy(sim: Sim) -> None:
            "repetitions": reps, "max_steps": max_steps, "randomised": randomised}
     sim.config.update(ctx)
     comp = games.computer(comp_name)
-    K0 = games.minimal_ids(n)
+    K0 = games.minimal_ids(n) + list(extras)
     first = None
     prelude.warm_process(sim)
     cache: dict = {}
@@ -210,7 +223,7 @@ def run_expected_greedy(sim: Sim) -> None:
         c = {**ctx, "processes": p, "image_model": image}
         src = em.ListSource(values, n)
         with sim.guard("C13.expected_greedy_raised"):
-            env = em.make_env(n, comp_name, src, gap, None)
+            env = em.make_env(n, comp_name, src, gap, None, initial_extra=extras)
             drawn_before = src.drawn
             with simpool.installed(sim, image):
                 curve, chosen = get_greedy_rewards(env, max_steps, reps, gap, processes=p,
